@@ -265,7 +265,7 @@ namespace {
             g_current = nullptr;
             if ( v.kind == V_REJECT )
                 continue;
-            pts += v.sched.points;
+            pts += v.sched.counted ? v.sched.counted : v.sched.points;
             thr += uint64_t( T );
         }
         if ( thr )
